@@ -48,13 +48,32 @@ def bindings_sx(pairs):
     return "(" + " ".join("(%s %s)" % (n, gen.val_sx(v)) for n, v in pairs) + ")"
 
 
+def _weight(t):
+    """upper bound on the number of nodes of a value of type t"""
+    k = t[0]
+    if k in ("B", "U"):
+        return 1
+    if k == "E":
+        return 1 + max(_weight(t[1]), _weight(t[2]))
+    if k == "O":
+        return 1 + _weight(t[1])
+    if k == "T":
+        return 1 + sum(_weight(x) for x in t[1])
+    if k == "A":
+        return 1 + t[2] * _weight(t[1])
+    if k == "L":
+        return 1 + ((1 << t[2]) - 1) * _weight(t[1])
+    return 1
+
+
 def witness_assignments(rng, wits, exhaustive_cap=4096, sample=16):
     """assignments of all witnesses except EXPECT: exhaustive when the joint domain is small"""
     ws = [(n, t) for (n, t) in wits if n != "EXPECT"]
     dom = 1
     for _, t in ws:
         dom = min(1 << 30, dom * progen.domain_size(t))
-    if dom <= exhaustive_cap:
+    # exhaustive only when the enumeration itself stays small (a List<(), 4096> has few values, but long ones)
+    if dom <= exhaustive_cap and dom * sum(_weight(t) for _, t in ws) <= 200000:
         vals = [progen.all_values(t) for _, t in ws]
         allc = list(itertools.product(*vals))
         if len(allc) > sample * 4:
